@@ -721,10 +721,6 @@ func (progBldr *ProgBuilder) Mul(ctx *context) {
 func (progBldr *ProgBuilder) Div(ctx *context) {
 	denom := ctx.popNumber("div (denominator)")
 	numer := ctx.popNumber("div (numerator)")
-	if denom == 0.0 {
-		ctx.pushDatum(NewNumDatum(math.Inf(1)))
-		return
-	}
 	ctx.pushDatum(NewNumDatum(numer / denom))
 }
 
